@@ -26,7 +26,7 @@ pub fn run(cx: &mut Ctx) {
                 let ty = api::CIPHERS[rng.below(7) as usize];
                 let len = rng.below(700) as usize;
                 let pos = if ty == "Ietf" { rng.below(1 << 30) } else { rng.u64() >> rng.below(40) } as u128;
-                let c = c01::Case { ty, fb: 0, kseed: rng.u64(), pos, len };
+                let c = c01::Case { ty, fb: 0, kseed: rng.u64(), pos, len, pre: 0 };
                 cx.log.announce(&format!("algo=chacha {}", c.desc()));
                 cx.log.nontrivial();
                 cx.log.class(&format!("conformance/{}/chacha", cfg));
